@@ -515,7 +515,7 @@ def strategy(tier):
 
 
 def budget(tier):
-    return 1500 if tier == "quick" else 60000
+    return 1500 if tier == "quick" else 40000
 
 
 SPEC0 = dict(dt=0.5, alpha=1.0, seed=3, scheme='upwind', beta=False, gamma=True, dt_e=1e-3)
